@@ -228,31 +228,66 @@ let fmt_api (a : api_route) : string =
          (fmt_numl b.ab_cluster) ua (b01 b.ab_postpolicy) (n_dec b.ab_otc)] in
   String.concat " " (("pfx=" ^ pf) :: List.concat_map path a.ar_paths)
 
+(* split a token list at the "&&" tokens *)
+let split_steps (toks : string list) : string list list =
+  let rec go cur acc = function
+    | [] -> List.rev (List.rev cur :: acc)
+    | "&&" :: r -> go [] (List.rev cur :: acc) r
+    | t :: r -> go (t :: cur) acc r in
+  go [] [] toks
+
+let dedup_of (toks : string list) : bool = List.mem "dd=1" toks
+
+(* A case is a sequence of conversions made one after the other in the harness process; the model
+   state (heap: allocation counter + attribute cache) is threaded through the steps of a case AND
+   from case to case, as the process-wide cache of the implementation is.  To keep the lookup cost
+   linear the model cache is emptied (the allocation counter kept) when it exceeds max_cache entries;
+   by C34_history_independent no stored entry can influence a later conversion. *)
+let max_cache = 300
+
 let () =
-  let compared = ref 0 and mism = ref 0 and panics = ref 0 in
+  let compared = ref 0 and mism = ref 0 and panics = ref 0 and steps = ref 0 and dd_steps = ref 0 in
+  let heap = ref empty_heap in
   iter_trace Sys.argv.(1) (fun id inp obs ->
     incr compared;
-    let r = (try Some (parse_route inp) with Failure m -> Printf.printf "MODEL-ERROR case=%s cannot parse input: %s\n" id m; None) in
-    match r with
-    | None -> ()
-    | Some r ->
-      let model =
-        match to_proto r with
-        | Panic -> incr panics; "PANIC-TO"
-        | Ok a ->
-          (match from_proto a with
-           | Panic -> incr panics; "PANIC-FROM"
-           | Ok back -> "API " ^ fmt_api a ^ " BACK " ^ fmt_route back) in
-      let impl = String.concat " " obs in
-      if model <> impl then begin
-        incr mism;
-        (* first differing token *)
-        let mt = split_ws model and it = split_ws impl in
-        let rec diff i a b = match a, b with
-          | x :: a', y :: b' -> if x = y then diff (i + 1) a' b' else Printf.sprintf "token %d model=%s impl=%s" i x y
-          | x :: _, [] -> Printf.sprintf "token %d model=%s impl=<end>" i x
-          | [], y :: _ -> Printf.sprintf "token %d model=<end> impl=%s" i y
-          | [], [] -> "equal?" in
-        Printf.printf "CORR-MISMATCH case=%s %s\n" id (diff 0 mt it)
-      end);
-  Printf.printf "STATS compared=%d mismatches=%d model_panics=%d\n" !compared !mism !panics
+    let isteps = split_steps inp and osteps = split_steps obs in
+    if List.length isteps <> List.length osteps then begin
+      incr mism;
+      Printf.printf "CORR-MISMATCH case=%s %d conversions in the input, %d observations\n" id
+        (List.length isteps) (List.length osteps)
+    end else begin
+      let bad = ref None in
+      List.iteri (fun k (itoks, otoks) ->
+        incr steps;
+        match (try Some (parse_route itoks) with Failure m ->
+                 Printf.printf "MODEL-ERROR case=%s step=%d cannot parse input: %s\n" id k m; None) with
+        | None -> ()
+        | Some r ->
+          let dd = dedup_of itoks in
+          if dd then incr dd_steps;
+          if List.length !heap.h_cache > max_cache then heap := { h_cache = []; h_next = !heap.h_next };
+          let model =
+            match to_proto r with
+            | Panic -> incr panics; "PANIC-TO"
+            | Ok a ->
+              let (res, h') = from_proto_h dd a !heap in
+              heap := h';
+              (match res with
+               | Panic -> incr panics; "PANIC-FROM"
+               | Ok back -> "API " ^ fmt_api a ^ " BACK " ^ fmt_route back) in
+          let impl = String.concat " " otoks in
+          if model <> impl && !bad = None then begin
+            let mt = split_ws model and it = split_ws impl in
+            let rec diff i a b = match a, b with
+              | x :: a', y :: b' -> if x = y then diff (i + 1) a' b' else Printf.sprintf "token %d model=%s impl=%s" i x y
+              | x :: _, [] -> Printf.sprintf "token %d model=%s impl=<end>" i x
+              | [], y :: _ -> Printf.sprintf "token %d model=<end> impl=%s" i y
+              | [], [] -> "equal?" in
+            bad := Some (Printf.sprintf "step=%d dedup=%b %s" k dd (diff 0 mt it))
+          end) (List.combine isteps osteps);
+      match !bad with
+      | None -> ()
+      | Some m -> incr mism; Printf.printf "CORR-MISMATCH case=%s %s\n" id m
+    end);
+  Printf.printf "STATS compared=%d mismatches=%d conversions=%d dedup_conversions=%d model_panics=%d\n"
+    !compared !mism !steps !dd_steps !panics
